@@ -191,6 +191,54 @@ def linearBuildI (baseRxns : List (Name × List (Name × Int))) (lv : List (Name
   let groups ← maps.mapM fun km => linRxnsOfI isos baseRxns km.1 km.2
   pure { vars, rxns := groups.flatten }
 
+/-! ### stoichiometric coefficients as the base model stores them (`float | Derived`) -/
+
+/-- Python's `int(q)` for a float: truncation towards zero -/
+def pyTrunc (q : Rat) : Int := if 0 ≤ q then q.floor else -((-q).floor)
+
+/-- `_unpack_stoichiometries` on raw coefficients: a `Derived` raises `NotImplementedError`; a
+    negative value `v` goes to the substrates as `int(-v)`, any other to the products as `int(v)` -/
+def unpackLinRaw : List (Name × Mxl.C05.Coef) → Except LErr (List (Name × Nat) × List (Name × Nat))
+  | [] => .ok ([], [])
+  | (k, c) :: rest =>
+    match c with
+    | .derived => .error .notImplementedError
+    | .int v => do
+      let (s, p) ← unpackLinRaw rest
+      if v < 0 then pure ((k, (-v).toNat) :: s, p) else pure (s, (k, v.toNat) :: p)
+    | .float q => do
+      let (s, p) ← unpackLinRaw rest
+      if q < 0 then pure ((k, (pyTrunc (-q)).toNat) :: s, p) else pure (s, (k, (pyTrunc q).toNat) :: p)
+
+/-- body of `for rxn_name, label_map in self.label_maps.items()` on raw coefficients: `raw` lists the
+    reactions whose coefficients are not all Python `int`s -/
+def linRxnsOfP (isos : List (Name × List Slot)) (baseRxns : List (Name × List (Name × Int)))
+    (raw : List (Name × List (Name × Mxl.C05.Coef))) (rxn : Name) (labelmap : List Int) :
+    Except LErr (List LinRxn) :=
+  match raw.lookup rxn with
+  | none => linRxnsOfI isos baseRxns rxn labelmap
+  | some st =>
+    match baseRxns.lookup rxn with
+    | none => .error (.keyError rxn)
+    | some _ => do
+      let (s, p) ← unpackLinRaw st
+      let subs ← slotsOf isos (dupList s)
+      let prods ← slotsOf isos (dupList p)
+      let (subs, prods) ← addInfluxEffluxI subs prods labelmap
+      let subs ← mapLabelmapToSubstratesI subs labelmap
+      pure (slotRxns rxn 0 subs prods)
+
+/-- `LinearLabelMapper.build_model` on raw coefficients (this is what the driver runs) -/
+def linearBuildP (baseRxns : List (Name × List (Name × Int))) (lv : List (Name × Nat))
+    (maps : List (Name × List Int)) (raw : List (Name × List (Name × Mxl.C05.Coef)))
+    (initLabels : List (Name × List Nat)) : Except LErr LinModel := do
+  let isos ← lv.mapM fun kn => do pure (kn.1, ← isotopeLabels kn.1 kn.2)
+  let zeros := (isos.flatMap (·.2)).map fun s => (s, (0 : Rat))
+  let vars := initLabels.foldl (fun vs kp =>
+    kp.2.foldl (fun vs pos => setSlot vs (Slot.pos kp.1 pos) (1 / (kp.2.length : Rat))) vs) zeros
+  let groups ← maps.mapM fun km => linRxnsOfP isos baseRxns raw km.1 km.2
+  pure { vars, rxns := groups.flatten }
+
 /-- the reading of a map that `LabelMapper` and the documentation use: product position `i` is fed
     by (padded) substrate position `labelmap[i]` -/
 def documentedSources (subs : List Slot) (labelmap : List Nat) : List Slot :=
